@@ -97,3 +97,18 @@ Qed.
 Example ex_graph : graph_process eg_bufs eg_set eg_process [1; 0] 2 eg0 [[b 10; b 20]; [b 100]] ex_output
   = Ok ([[b 100; b 2]; [b 10]; [[110; 112; 114; 116]; b 2]], [[110; 112; 114; 116]; b 2; b 9]).
 Proof. reflexivity. Qed.
+
+(* the owner replaces the node's buffer list between calls: with buffers, with none, with
+   buffers again.  The signal advances by L frames in EVERY call, also the one without buffers
+   (the third call starts at frame 2*L: state 5 + 8 = 13) *)
+Example ex_signal_v : signal_calls_v L ex_next 2 [[b 7]; []; [b 7; b 8]] 5 =
+  Ok (17, [[[50; 60; 70; 80]]; []; [[130; 140; 150; 160]; [131; 141; 151; 161]]]).
+Proof. reflexivity. Qed.
+
+(* Delay: channel 1 loses its output buffer during the second call (not advanced), channel 0
+   stays continuous *)
+Example ex_delay_v : delay_calls_v ex_rings [([[b 10; b 20]], ex_output); ([[b 30; b 40]], [b 7]); ([[b 50; b 60]], ex_output)] =
+  Ok ([ {| first := 2; fdata := [52; 53; 51] |}; {| first := 3; fdata := [61; 62; 63; 22; 23; 60] |} ],
+      [[[51; 52; 53; 10]; [61; 62; 63; 64]; b 9]; [[11; 12; 13; 30]];
+       [[31; 32; 33; 50]; [65; 66; 20; 21]; b 9]]).
+Proof. reflexivity. Qed.
